@@ -24,6 +24,11 @@ Theorem c11_subevaluations_leave_no_state_partial : forall A a (r : R A) x a',
 Proof. exact @scoped_restores. Qed.
 Print Assumptions c11_subevaluations_leave_no_state_partial.
 
+Theorem c11_path_walk_leaves_no_state_partial : forall dv fuel0 fs a cur r a',
+  get_path_dyn dv fuel0 fs a cur = Ok (r, a') -> forall n, n <> cyc_marker -> act_has n a' = act_has n a.
+Proof. exact path_walk_restores. Qed.
+Print Assumptions c11_path_walk_leaves_no_state_partial.
+
 Theorem c11_merge_source_objects_stay_private_partial : forall n h dst merged skeys nsrc (src : list N),
   (forall x, In x src -> x < n) ->
   (forall x, In x (addrs dst) -> ~ In x src) ->
